@@ -45,10 +45,24 @@ def load_audit(config="default"):
             cfgs, line = line[1:].split(" ", 1)
             if config not in cfgs.split(","):
                 continue
+        mult = 1
+        m = re.match(r"^\*(\d+) ", line)
+        if m:
+            mult = int(m.group(1))
+            line = line[m.end():]
         if " :: " in line:
             k, why = line.split(" :: ", 1)
-            out[k.strip()] = why.strip()
+            out[k.strip()] = AuditEntry(why.strip(), mult + (out[k.strip()].count if k.strip() in out else 0))
     return out
+
+
+class AuditEntry(str):
+    """reason text of an audit entry + how many sites it covers (`*N ` prefix: N sites share the normalised signature,
+    e.g. the three 4-byte header fields of AuDecode; each entry line is a budget of exactly N sites)"""
+    def __new__(cls, why, count=1):
+        o = str.__new__(cls, why)
+        o.count = count
+        return o
 
 
 class Site:
@@ -307,7 +321,7 @@ def rule_scope(facts, col, pred=None, rule_id="C15"):
     bodies = [b for b in scope_bodies(facts) if pred is None or pred(b)]
     seen_keys = set()
     pending = []      # undischarged, not exactly audited
-    used_audit = set()
+    used_count = {}
     for body in bodies:
         for site in sites_of(body, tnt):
             key = site.key()
@@ -318,8 +332,8 @@ def rule_scope(facts, col, pred=None, rule_id="C15"):
             why = discharge(site, facts)
             if why:
                 col.ok(rid, key, body.where(site.bb), why)
-            elif site.akey() in audit:
-                used_audit.add(site.akey())
+            elif site.akey() in audit and used_count.get(site.akey(), 0) < audit[site.akey()].count:
+                used_count[site.akey()] = used_count.get(site.akey(), 0) + 1
                 col.ok(rid, key, body.where(site.bb), "audited: " + audit[site.akey()])
             else:
                 pending.append((rid, key, site))
@@ -329,12 +343,13 @@ def rule_scope(facts, col, pred=None, rule_id="C15"):
     free = {}
     files_in_scope = {b.file for b in bodies}
     for ak in audit:
-        if ak in used_audit:
+        left = audit[ak].count - used_count.get(ak, 0)
+        if left <= 0:
             continue
         fl = ak.split("|", 1)[0]
         if fl not in files_in_scope:
             continue
-        free[(fl, _audit_cls(ak))] = free.get((fl, _audit_cls(ak)), 0) + 1
+        free[(fl, _audit_cls(ak))] = free.get((fl, _audit_cls(ak)), 0) + left
     groups = {}
     for rid, key, site in pending:
         groups.setdefault((site.body.file, site.cls()), []).append((rid, key, site))
